@@ -43,6 +43,8 @@ RULE = (
     "ntexts, snmpUnknownContexts) is also read as an ordinary object."
     " The agent confirms a SET with ANOTHER value (set/multiset return what was confirmed); o"
     "ne client per level asks 550 different questions and then the first 120 again."
+    " After a client's first call failed on the way (reply lost, garbage, caller gave up with"
+    " wait_for), get / multiget / getnext / set on it return the agent's answers."
 )
 ASSUMPTIONS = [
     "reference agent conformant (vf/agent.py); count faults are injected at PDU level by the agent's pdu_hook and travel inside authentic (v3: signed/encrypted) responses",
